@@ -113,6 +113,8 @@ def run(rep, kf, tier, seed):
     # what is written to api/<tag>/<module>.py is the rendering of that very operation
     import contracts.project as cproj
     engine_b.discharge(rep, kf, [cproj.build_contract("NONE")], "C03", tier, seed)
+    import contracts.sort_parameters as csp
+    engine_b.discharge(rep, kf, [csp.sort_contract()], "C03", tier, seed)
     engine_b.discharge(rep, kf, [rb.body_from_data_contract(), cfgc.get_content_type_contract(), cap.add_parameters_contract()],
                        "C03", tier, seed)
     from props.common import run_bounded
